@@ -17,7 +17,7 @@ EXPLANATION = (
     "graphs round-trip as well; content the format cannot express (R^n odometry, R^n->R^n landmark edges, SE(2) landmark "
     "edges with a non-identity offset) raises at export time."
 )
-BOUNDS = "(values compared with copies taken BEFORE the export; parameter offsets need not be unit; other files loaded in between) SE(2) family and SE(3) family graphs (2 poses, 1 landmark, odometry + landmark edge, parameters, custom edge with to_g2o), programmatic graphs, 2 cycles"
+BOUNDS = "(values compared with copies taken BEFORE the export; parameter offsets need not be unit; other files loaded in between) SE(2) family and SE(3) family graphs (2 poses, 1 landmark, odometry + landmark edge, parameters, custom edge with to_g2o), programmatic graphs, 2 cycles; a loaded graph edited in place (poses, measurements, information, landmark offset) before the export"
 OUTSIDE = "the builtin float formatting/parsing itself (trusted: shortest-repr round trip), values beyond double range, rounding inside angle wrap / quaternion renormalisation"
 ASSUMPTIONS = ["float(format(x,'')) == x and int(format(i,'')) == i", "unit quaternions, SE(2) angles in [-pi,pi) in the loaded graph", "ids distinct"]
 
